@@ -10,7 +10,7 @@ impl Config {
 //@repo crates/pow/src/config.rs fn Config::validate props=C01,C02,C09,C11
     pub fn validate(&self) -> (r: Result<(), Error>)
         ensures
-            r.is_ok() <==> 20 <= self.n_bits <= 50, // [C01,C02,C09,C11:pow-bits-in-20..=50]
+            r.is_ok() <==> 20 <= self.n_bits <= 50, // [C01,C02,C09,C11,C18:pow-bits-in-20..=50]
     {
         if self.n_bits < MIN_PROOF_OF_WORK_BITS || self.n_bits > MAX_PROOF_OF_WORK_BITS {
             Err(Error::OutOfBounds { min: MIN_PROOF_OF_WORK_BITS, max: MAX_PROOF_OF_WORK_BITS })
